@@ -67,7 +67,9 @@ pub fn wild_name() -> impl Strategy<Value = String> {
 }
 
 pub fn advance() -> impl Strategy<Value = Step> {
-    prop_oneof![4 => Just(0u64), 4 => Just(1), 4 => Just(50), 4 => Just(99), 4 => Just(100), 4 => Just(101), 4 => Just(150), 4 => Just(250), 1 => Just(6_000), 1 => Just(61_000)].prop_map(Step::Advance)
+    prop_oneof![4 => Just(0u64), 4 => Just(1), 4 => Just(50), 4 => Just(99), 4 => Just(100), 4 => Just(101), 4 => Just(150), 4 => Just(250), 1 => Just(6_000), 1 => Just(61_000),
+        // hours, days and weeks of silence (housekeeping timers, keep-alives, counters of milliseconds in 32 bits)
+        1 => prop_oneof![Just(3_600_001u64), Just(7_200_001), Just(86_400_001), Just(2_592_000_000), Just(4_294_967_296 + 5)]].prop_map(Step::Advance)
 }
 
 pub fn release() -> impl Strategy<Value = Step> {
@@ -234,12 +236,12 @@ pub fn assemble(sched_seed: u64, seg: SegPattern, max_write: Option<usize>, gen:
     let mut replies = Vec::new();
     let mut k = 0usize;
     let steps = gen.into_iter().map(|g| conv(g, &mut k, &mut replies)).collect();
-    Script { sched_seed, seg, replies, steps, max_write, picture: None, broken_pipe: true, greeting: None, lazy_events: false, version: None, vectored: false, events_polled_last: false, error_kind: 0, real_ms_per_advance: 0, noise_connection: false, greeting_tail: None, foreign_callers: false }
+    Script { sched_seed, seg, replies, steps, max_write, picture: None, broken_pipe: true, greeting: None, lazy_events: false, version: None, vectored: false, events_polled_last: false, error_kind: 0, real_ms_per_advance: 0, noise_connection: false, greeting_tail: None, foreign_callers: false, shutdown_behaviour: 0 }
 }
 
 /// Properties of the peer and the transport that no property statement restricts: the version the
 /// server announces and whether the transport takes vectored writes.
-pub fn environment() -> impl Strategy<Value = (Option<String>, bool, Option<u16>, u8, (bool, bool))> {
+pub fn environment() -> impl Strategy<Value = (Option<String>, bool, Option<u16>, u8, (bool, bool, u8))> {
     (
         prop_oneof![
             6 => Just(None),
@@ -253,13 +255,16 @@ pub fn environment() -> impl Strategy<Value = (Option<String>, bool, Option<u16>
         prop_oneof![3 => Just(0u8), 4 => 1..8u8],
         // an unrelated second connection on the same thread; the callers' futures polled by an executor
         // on another OS thread
-        (prop::bool::weighted(0.15), prop::bool::weighted(0.12)),
+        // ... and what the transport's poll_shutdown does, should the client call it (completes / never
+        // completes / fails)
+        (prop::bool::weighted(0.15), prop::bool::weighted(0.12), prop_oneof![4 => Just(0u8), 1 => Just(1), 1 => Just(2)]),
     )
 }
 
 pub fn in_environment(s: impl Strategy<Value = Script>) -> impl Strategy<Value = Script> {
-    (s, environment()).prop_map(|(mut s, (version, vectored, drop_events, error_kind, (noise, foreign)))| {
+    (s, environment()).prop_map(|(mut s, (version, vectored, drop_events, error_kind, (noise, foreign, shutdown)))| {
         s.foreign_callers = foreign;
+        s.shutdown_behaviour = shutdown;
         s.version = version;
         s.vectored = vectored;
         s.error_kind = error_kind;
